@@ -59,6 +59,7 @@ fn to_cln_error(e: RequestError) -> Error {
         RequestError::ConnectionError(e) => anyhow!(e),
         RequestError::DeserializeError(e) => anyhow!(e),
         RequestError::Unexpected(e) => anyhow!(e),
+        RequestError::ApiError(e) => anyhow!("{} (error code: {})", e.error, e.error_code),
     };
     log::info!("{e}");
     e
@@ -190,7 +191,7 @@ async fn get_subscription_info(
 
     let signature = cryptography::sign("get subscription info".as_bytes(), &user_sk);
 
-    let response: common_msgs::GetSubscriptionInfoResponse = process_post_response(
+    let response: ApiResponse<common_msgs::GetSubscriptionInfoResponse> = process_post_response(
         post_request(
             &tower_net_addr,
             Endpoint::GetSubscriptionInfo,
